@@ -1,49 +1,23 @@
-import Ivg.Lemmas.SpecZ2Oa
-import Ivg.Lemmas.SpecZ2Ob
-import Ivg.Lemmas.SpecZ2Oc
-import Ivg.Lemmas.SpecZ2Od
-/-! # C03, zero-to-one forms: the two division facts for the whole domain -/
+import Ivg.Lemmas.SpecDiv
+/-!
+# C03, zero-to-one forms: `float32(u)/120` and `float32(u)/15120` are correctly rounded quotients
+
+Instances of `ofInt_div_eq_ofRatio` (`SpecDiv.lean`): the model divides two float32 values, the
+specification takes the float32 nearest to the rational `u/120` resp. `u/15120`.
+-/
 namespace Ivg.SpecL
 open Ivg Num
 
 /-- 1-byte zero-to-one: `float32(u)/120` is the float32 nearest to `u/120` -/
-theorem z2o_one (u : Nat) (h : u < 128) : F32.ofInt u / F32.ofInt 120 = F32.ofRatio false u 120 :=
-  z2oChk_spec z2o120_all u (by omega) (by omega)
+theorem z2o_one (u : Nat) (h : u < 128) : F32.ofInt u / F32.ofInt 120 = F32.ofRatio false u 120 := by
+  by_cases h0 : u = 0
+  · subst h0; decide +kernel
+  · exact ofInt_div_eq_ofRatio u 120 (by omega) (by omega) (by omega) (by omega)
 
 /-- 2-byte zero-to-one: `float32(u)/15120` is the float32 nearest to `u/15120` -/
 theorem z2o_two (u : Nat) (h : u < 16384) : F32.ofInt u / F32.ofInt 15120 = F32.ofRatio false u 15120 := by
-  by_cases h0 : u < 1024
-  · exact z2oChk_spec z2o15120_0 u (by omega) (by omega)
-  by_cases h1 : u < 2048
-  · exact z2oChk_spec z2o15120_1 u (by omega) (by omega)
-  by_cases h2 : u < 3072
-  · exact z2oChk_spec z2o15120_2 u (by omega) (by omega)
-  by_cases h3 : u < 4096
-  · exact z2oChk_spec z2o15120_3 u (by omega) (by omega)
-  by_cases h4 : u < 5120
-  · exact z2oChk_spec z2o15120_4 u (by omega) (by omega)
-  by_cases h5 : u < 6144
-  · exact z2oChk_spec z2o15120_5 u (by omega) (by omega)
-  by_cases h6 : u < 7168
-  · exact z2oChk_spec z2o15120_6 u (by omega) (by omega)
-  by_cases h7 : u < 8192
-  · exact z2oChk_spec z2o15120_7 u (by omega) (by omega)
-  by_cases h8 : u < 9216
-  · exact z2oChk_spec z2o15120_8 u (by omega) (by omega)
-  by_cases h9 : u < 10240
-  · exact z2oChk_spec z2o15120_9 u (by omega) (by omega)
-  by_cases h10 : u < 11264
-  · exact z2oChk_spec z2o15120_10 u (by omega) (by omega)
-  by_cases h11 : u < 12288
-  · exact z2oChk_spec z2o15120_11 u (by omega) (by omega)
-  by_cases h12 : u < 13312
-  · exact z2oChk_spec z2o15120_12 u (by omega) (by omega)
-  by_cases h13 : u < 14336
-  · exact z2oChk_spec z2o15120_13 u (by omega) (by omega)
-  by_cases h14 : u < 15360
-  · exact z2oChk_spec z2o15120_14 u (by omega) (by omega)
-  by_cases h15 : u < 16384
-  · exact z2oChk_spec z2o15120_15 u (by omega) (by omega)
-  omega
+  by_cases h0 : u = 0
+  · subst h0; decide +kernel
+  · exact ofInt_div_eq_ofRatio u 15120 (by omega) (by omega) (by omega) (by omega)
 
 end Ivg.SpecL
